@@ -92,6 +92,8 @@ def program_list(tier):
     for op in ("sum", "mean", "max"):
         for keep in (False, True):
             progs.append(("reduce", (2, 3), ("d0", "d1"), op, "d1", 2, keep))
+    progs.append(("concatenate-xr", (2,), ("d0",)))
+    progs.append(("concatenate-xr", (3,), ("d0",)))
     progs.append(("expand-inner", (2,), ("d0",), (2, 1)))
     progs.append(("expand-inner", (2,), ("d0",), (3, 1)))
     for shape, dims in shapes:
@@ -279,6 +281,19 @@ def build_and_eval(prog):
     if kind == "map":
         act = apply_guarded("map", lambda: A.action.map(fmap))
         return finish(act, {idx: fmap(v) for idx, v in vals.items()}, dims, coords)
+    if kind == "concatenate-xr":
+        # labelled inner arrays (xarray), every node with the same decreasing labels: concatenation keeps node order
+        import xarray as xr
+
+        raw = {idx: E.fresh_array(f"x{''.join(map(str, idx))}", (2,)) for idx in np.ndindex(*shape)}
+        A.arr = {idx: xr.DataArray(v, dims=("i",), coords={"i": [1, 0]}) for idx, v in raw.items()}
+        pay = np.empty(shape, dtype=object)
+        for idx in np.ndindex(*shape):
+            pay[idx] = A._mk(idx)
+        A.action = fluent.from_source(pay, dims=list(dims), coords=A.coords)
+        act = apply_guarded("concatenate", lambda: A.action.concatenate(dims[0], backend_kwargs={"dim": "i"}))
+        want = {(): np.concatenate([raw[(k,)] for k in range(shape[0])], axis=0)}
+        return finish(act, want, (), coords)
     if kind == "expand-inner":
         # inner arrays with an extra axis of length 1: only the expanded axis may be dropped
         inner = prog[3]
